@@ -547,3 +547,50 @@ func VerifC14_dsl_per_record_state() {
 	verifAssert(len(out) == pos, "C14/dsl/per-record/filter-false-excludes-exactly-the-current-record")
 	verifReach("C14/dsl/per-record/end")
 }
+
+// Positional-name assignment onto the name of ANOTHER existing field, followed by accesses by name,
+// on narrow and wide records (n over {3, 11, 12, 13}: below and above the width at which records
+// build their key index): $[[1]] = "f3" renames field 1 to f3 and displaces the old f3; afterwards
+// $f3 names exactly one field — the renamed one, in first position — for assignment, read and unset.
+//verif:opts engine-only maxpaths=50000 unwind=400
+func VerifC14_dsl_positional_name_then_access_by_name() {
+	n := []int{3, 11, 12, 13}[verifChoice("fields", 4)]
+	x := verifInt64("x")
+	verifAssume(x >= -2 && x <= 6)
+	rec := mlrval.NewMlrmapAsRecord()
+	for i := 1; i <= n; i++ {
+		name := "f" + string(rune('0'+i/10)) + string(rune('0'+i%10))
+		rec.PutReference(name, mlrval.FromInt(int64(i)))
+	}
+	progs := []string{
+		verifDSL(`$[[1]] = "f03"; $f03 = $x0; $new = $f03`),
+		verifDSL(`$[[1]] = "f03"; $new = $f03`),
+		verifDSL(`$[[1]] = "f03"; unset $f03; $new = is_absent($f03)`),
+	}
+	which := verifChoice("program", len(progs))
+	rec.PutReference("x0", mlrval.FromInt(x))
+	out := verifPutRun(verifPut(progs[which]), []*mlrval.Mlrmap{rec})
+	verifAssert(len(out) == 1, "C14/dsl/positional-name/one-record")
+	if len(out) != 1 {
+		return
+	}
+	count := 0
+	for pe := out[0].Head; pe != nil; pe = pe.Next {
+		if pe.Key == "f03" {
+			count++
+		}
+	}
+	switch which {
+	case 0:
+		verifAssert(count == 1 && out[0].Head.Key == "f03", "C14/dsl/positional-name/the-name-denotes-exactly-one-field")
+		c14IntIs(out[0], "f03", x, "C14/dsl/positional-name/assignment-by-name-reaches-the-renamed-field")
+		c14IntIs(out[0], "new", x, "C14/dsl/positional-name/read-by-name-reaches-the-renamed-field")
+	case 1:
+		verifAssert(count == 1 && out[0].Head.Key == "f03", "C14/dsl/positional-name/the-name-denotes-exactly-one-field")
+		c14IntIs(out[0], "new", 1, "C14/dsl/positional-name/read-by-name-reaches-the-renamed-field")
+	case 2:
+		verifAssert(count == 0, "C14/dsl/positional-name/unset-by-name-removes-the-renamed-field")
+	}
+	verifAssert(out[0].FieldCount == int64(n)+1-int64(which/2), "C14/dsl/positional-name/field-count")
+	verifReach("C14/dsl/positional-name/end")
+}
